@@ -266,6 +266,8 @@ class HistScanner(UDSScanner):
         if env.stall and self.db_handler.connection is not None:
             # a slow disk / another process holding the database: the writer task cannot insert for a while
             env.gate = asyncio.Event()
+            if env.stall == "busy-last":
+                env.gate.set()  # nothing is held back; only the last insert meets a locked database
             conn = self.db_handler.connection
             real_execute = conn.execute
 
@@ -276,6 +278,14 @@ class HistScanner(UDSScanner):
                     if env.gate is not None and not env.gate.is_set():
                         await env.gate.wait()
                     seen["n"] += 1
+                    if env.stall == "busy-last" and len(self.hist) <= seen["n"] < len(self.hist) + 4:
+                        # the database is write-locked by another process when the run ends: the insert of the LAST
+                        # message waits (busy timeout) and fails a few times while the handler is already being closed
+                        import aiosqlite
+
+                        env.rec(e="DbBusy", n=seen["n"])
+                        await asyncio.sleep(0.02)
+                        raise aiosqlite.OperationalError("database is locked")
                     if env.stall == "busy" and seen["n"] in (3, 8, 9):
                         # another process holds the database for a moment: sqlite's transient "database is
                         # locked" (the writer retries; the request must still end up as exactly one row)
